@@ -38,7 +38,7 @@ func baseTypeName(t reflect.Type) string {
 }
 
 func copyExported(dst, src reflect.Value, inplace bool, depth int) {
-	if depth > 6 || dst.Type() != src.Type() {
+	if depth > 24 || dst.Type() != src.Type() {
 		return
 	}
 	switch dst.Kind() {
